@@ -8,6 +8,12 @@
 //	<adj>    id:deps;id:deps;…  deps in target.Dependencies() order, "-" = none   e.g. 2:0,1;0:1;1:-
 //
 // Output:   none | cycle <ids of errCycle.Cycle>
+//
+// Op line:  seq <step> <step> …      with <step> = <nodes>/<adj> as above
+//
+// ONE detector (core.NewCycleDetectorForVerif, as BuildState keeps one per build) checks a graph that grows
+// between the calls (targets are added, dependencies get resolved); step i is the graph as the real code
+// presents it at the i-th call.  Output: the results of the calls joined by "|".
 package main
 
 import (
@@ -298,7 +304,296 @@ func contains(xs []int, x int) bool {
 	return false
 }
 
+// ---------------------------------------------------------------- sequences of checks on one detector
+
+// seqSpec: the final node order (ids in label order), the step at which each node enters the graph, and the
+// edges added before each call.
+type seqSpec struct {
+	order  []int       // all ids, in label order
+	enter  map[int]int // id -> first step in which the target exists
+	edges  [][][2]int  // per step: edges (from, to) resolved just before that call
+}
+
+func runSeq(r *lib.Run, q *seqSpec, tag string) {
+	graph := core.NewGraph()
+	det := core.NewCycleDetectorForVerif(graph)
+	b := &built{graph: graph, idOf: map[*core.BuildTarget]int{}, targets: map[int]*core.BuildTarget{}}
+	pos := map[int]int{}
+	for i, id := range q.order {
+		pos[id] = i
+	}
+	var steps, outs []string
+	missed, total := false, 0
+	for step := range q.edges {
+		for _, id := range q.order {
+			if q.enter[id] == step {
+				t := core.NewBuildTarget(labelFor(pos[id], len(q.order)))
+				graph.AddTarget(t)
+				b.idOf[t] = id
+				b.targets[id] = t
+			}
+		}
+		for _, e := range q.edges[step] {
+			core.ResolveDependencyForVerif(b.targets[e[0]], b.targets[e[1]])
+		}
+		op, nodes, adj := b.canonical()
+		f := strings.Split(op, " ")
+		steps = append(steps, f[1]+"/"+f[2])
+		var cyc []int
+		res := lib.Safely(func() string {
+			c := det.Check()
+			if c == nil {
+				return "none"
+			}
+			for _, t := range c {
+				cyc = append(cyc, b.idOf[t])
+			}
+			return "cycle " + lib.Nats(cyc)
+		})
+		outs = append(outs, res)
+		total++
+		// the oracle judges every call against the graph as resolved at that moment
+		seqOp := "seq " + strings.Join(steps, " ")
+		cyclic, _ := sccCyclic(nodes, adj)
+		switch {
+		case res == "panic":
+			r.OracleFail("detector-panics", seqOp, "panic in Check (call "+fmt.Sprint(step+1)+")")
+		case res == "none":
+			if cyclic {
+				missed = true
+				r.OracleFail("cycle-missed", seqOp, fmt.Sprintf("call %d on one detector: the graph resolved so far has a cycle (Tarjan) but Check returned nil; results so far: %s", step+1, strings.Join(outs, "|")))
+			}
+		default:
+			ok := len(cyc) > 0
+			for i := range cyc {
+				if !hasEdge(adj, cyc[i], cyc[(i+1)%len(cyc)]) {
+					ok = false
+				}
+			}
+			if !cyclic {
+				r.OracleFail("acyclic-reported", seqOp, fmt.Sprintf("call %d: %s", step+1, res))
+			} else if !ok {
+				r.OracleFail("reported-not-a-cycle", seqOp, fmt.Sprintf("call %d: %s", step+1, res))
+			}
+		}
+	}
+	_ = missed
+	r.Count(tag)
+	r.Count(fmt.Sprintf("seq-calls=%d", min(total, 9)))
+	first := -1
+	for i, o := range outs {
+		if o != "none" && first < 0 {
+			first = i
+		}
+	}
+	switch {
+	case first < 0:
+		r.Count("seq:never-cyclic")
+	case first == 0:
+		r.Count("seq:cyclic-from-first-call")
+	default:
+		r.Count("seq:cycle-closes-after-earlier-clean-calls")
+	}
+	r.Emit("seq "+strings.Join(steps, " "), strings.Join(outs, "|"), first > 0 || total > 1)
+}
+
+// replaySeq rebuilds a sequence from its op line: targets must only be added, edges only be added.
+func replaySeq(r *lib.Run, op string) {
+	toks := strings.Split(op, " ")[1:]
+	bad := func() { r.Emit(op, "bad-op", false) }
+	if len(toks) == 0 {
+		bad()
+		return
+	}
+	var specs []*spec
+	for _, tk := range toks {
+		parts := strings.Split(tk, "/")
+		if len(parts) != 2 {
+			bad()
+			return
+		}
+		sp, ok := parseOp("check " + parts[0] + " " + parts[1])
+		if !ok {
+			bad()
+			return
+		}
+		specs = append(specs, sp)
+	}
+	last := specs[len(specs)-1]
+	q := &seqSpec{order: last.nodes, enter: map[int]int{}, edges: make([][][2]int, len(specs))}
+	have := map[[2]int]int{}
+	for i, sp := range specs {
+		// the node order of every step must be the final order restricted to the nodes present
+		var want []int
+		in := map[int]bool{}
+		for _, n := range sp.nodes {
+			in[n] = true
+			if _, seen := q.enter[n]; !seen {
+				q.enter[n] = i
+			}
+		}
+		for _, n := range last.nodes {
+			if in[n] {
+				want = append(want, n)
+			}
+		}
+		if lib.Nats(want) != lib.Nats(sp.nodes) || len(want) != len(sp.nodes) {
+			r.Count("replay-skipped:seq-node-order-not-monotone")
+			return
+		}
+		for n, st := range q.enter {
+			if st < i && !in[n] {
+				r.Count("replay-skipped:seq-target-removed")
+				return
+			}
+		}
+		cnt := map[[2]int]int{}
+		for _, a := range sp.nodes {
+			for _, d := range sp.adj[a] {
+				cnt[[2]int{a, d}]++
+			}
+		}
+		for e, c := range have {
+			if cnt[e] < c {
+				r.Count("replay-skipped:seq-edge-removed")
+				return
+			}
+		}
+		for _, a := range sp.nodes {
+			for _, d := range sp.adj[a] {
+				e := [2]int{a, d}
+				if have[e] < cnt[e] {
+					have[e]++
+					q.edges[i] = append(q.edges[i], e)
+				}
+			}
+		}
+	}
+	runSeq(r, q, "replay-seq")
+}
+
+// randomSeq: a final graph whose edges get resolved in a random order, a few per call; some targets only enter
+// the graph later.  Biased towards a cycle that closes late.
+func randomSeq(r *lib.Run, maxN int) *seqSpec {
+	g := r.Rng
+	n := 2 + g.Intn(maxN-1)
+	ids := make([]int, n)
+	for i := range ids {
+		ids[i] = i
+	}
+	if g.Chance(60) {
+		lib.Shuffle(g, ids)
+	}
+	var edges [][2]int
+	// a DAG over a random topological order …
+	topo := append([]int{}, ids...)
+	lib.Shuffle(g, topo)
+	p := 15 + g.Intn(40)
+	for i := 0; i < n; i++ {
+		for j := i + 1; j < n; j++ {
+			if g.Chance(p) {
+				edges = append(edges, [2]int{topo[i], topo[j]})
+			}
+		}
+	}
+	lib.Shuffle(g, edges)
+	// … plus, usually, back edges; mostly resolved last
+	nb := 0
+	if g.Chance(75) {
+		nb = 1 + g.Intn(2)
+	}
+	var back [][2]int
+	for k := 0; k < nb; k++ {
+		i, j := g.Intn(n), g.Intn(n)
+		if i < j {
+			i, j = j, i
+		}
+		back = append(back, [2]int{topo[i], topo[j]})
+	}
+	if g.Chance(70) {
+		edges = append(edges, back...)
+	} else {
+		edges = append(back, edges...)
+		lib.Shuffle(g, edges)
+	}
+	q := &seqSpec{order: ids, enter: map[int]int{}}
+	// split into calls
+	for len(edges) > 0 {
+		k := 1 + g.Intn(3)
+		if k > len(edges) {
+			k = len(edges)
+		}
+		q.edges = append(q.edges, edges[:k])
+		edges = edges[k:]
+	}
+	if len(q.edges) == 0 {
+		q.edges = [][][2]int{nil}
+	}
+	if g.Chance(20) {
+		q.edges = append(q.edges, nil) // one more call with nothing new
+	}
+	late := g.Chance(30)
+	for _, id := range ids {
+		q.enter[id] = 0
+	}
+	if late {
+		for _, id := range ids {
+			first := len(q.edges)
+			for st, es := range q.edges {
+				for _, e := range es {
+					if (e[0] == id || e[1] == id) && st < first {
+						first = st
+					}
+				}
+			}
+			if first == len(q.edges) {
+				first = g.Intn(len(q.edges))
+			}
+			q.enter[id] = first
+		}
+	}
+	return q
+}
+
+// exhaustiveSeq: every digraph on n targets, its edges resolved one per call, in matrix order and in reverse.
+func exhaustiveSeq(r *lib.Run, n int) {
+	type pr struct{ a, b int }
+	var cells []pr
+	for a := 0; a < n; a++ {
+		for b := 0; b < n; b++ {
+			cells = append(cells, pr{a, b})
+		}
+	}
+	for m := 1; m < 1<<len(cells); m++ {
+		var es [][2]int
+		for i, c := range cells {
+			if m>>i&1 == 1 {
+				es = append(es, [2]int{c.a, c.b})
+			}
+		}
+		for dir := 0; dir < 2; dir++ {
+			q := &seqSpec{enter: map[int]int{}}
+			for i := 0; i < n; i++ {
+				q.order = append(q.order, i)
+				q.enter[i] = 0
+			}
+			for i := range es {
+				e := es[i]
+				if dir == 1 {
+					e = es[len(es)-1-i]
+				}
+				q.edges = append(q.edges, [][2]int{e})
+			}
+			runSeq(r, q, fmt.Sprintf("exhaustive-seq-n%d", n))
+		}
+	}
+}
+
 func runOp(r *lib.Run, op string, tag string) {
+	if strings.HasPrefix(op, "seq") && (op == "seq" || strings.HasPrefix(op, "seq ")) {
+		replaySeq(r, op)
+		return
+	}
 	s, ok := parseOp(op)
 	if !ok {
 		r.Emit(op, "bad-op", false)
@@ -552,9 +847,15 @@ func main() {
 		b := resolvedGraph(r, 12)
 		observe(r, b, "resolved-by-real-code")
 	}
-	// 4. malformed op lines (both sides must reject)
+	// 4. ONE detector re-checking a graph that grows between the calls (as BuildState does every idle period)
+	exhaustiveSeq(r, 2)
+	exhaustiveSeq(r, 3)
+	for i := 0; i < r.N(4000, 60000); i++ {
+		runSeq(r, randomSeq(r, []int{4, 7, 12}[i%3]), "random-seq")
+	}
+	// 5. malformed op lines (both sides must reject)
 	for _, op := range []string{"check", "check 0", "check 0,1 0:1", "check 0,0 0:-;0:-", "check 0 0:1", "check a 0:-",
-		"check 0 0:-;1:-", "chk 0 0:-", "check 0 0:-:-", "check 0 0:-,"} {
+		"check 0 0:-;1:-", "chk 0 0:-", "check 0 0:-:-", "check 0 0:-,", "seq", "seq 0", "seq 0/0:1", "seq 0/0:-/1"} {
 		runOp(r, op, "malformed")
 	}
 }
